@@ -1,6 +1,7 @@
 package main
 
 import (
+	"strconv"
 	"encoding/json"
 	"flag"
 	"fmt"
@@ -290,7 +291,11 @@ func cmdCheck(args []string) int {
 		vc.slicer() // built once, before the parallel phase
 	}
 	solveStart := time.Now()
-	dischargeAll(items, scratch, timeout, 16)
+	jobs := 16
+	if n, err := strconv.Atoi(os.Getenv("GOVC_JOBS")); err == nil && n > 0 {
+		jobs = n
+	}
+	dischargeAll(items, scratch, timeout, jobs)
 	solveWall := time.Since(solveStart).Seconds()
 
 	// ------------------------------------------------------------ verdicts
